@@ -52,7 +52,8 @@ Inductive lop :=
 | LConfig (q : creq) (fid : N) (fs : list bool)
 | LRestore (metaIdx : N) (data : list N) (sizeOk : bool) (fs : list bool)
 | LVerify
-| LGate.
+| LGate
+| LVote (leader : bool) (with_resolved : bool).   (* a replication goroutine votes on the LAST verify future *)
 
 Definition dec_fails (l : list N) : list bool * list N :=
   let '(fl, r) := dec_list l in (map n2b fl, r).
@@ -74,43 +75,67 @@ Definition dec_lop (l : list N) : option (lop * list N) :=
     end
   | 6 :: r => Some (LVerify, r)
   | 7 :: r => Some (LGate, r)
+  | 8 :: ld :: wr :: r => Some (LVote (n2b ld) (n2b wr), r)
   | _ => None
   end.
 
+(* the last verify future of the run (not part of the leader state): votes, quorumSize, and how it stands:
+   0 still collecting votes (notifyCh set), 1 handed over with a quorum (or answered at once: single voter),
+   2 handed over on a denial.  verifyFuture.vote is a no-op once the future was handed over. *)
+Definition vstate : Type := option (N * N * N).
+
+Definition vote_step (vf : vstate) (leader : bool) : vstate :=
+  match vf with
+  | None => None
+  | Some (votes, q, 0) =>
+    let '(v, r) := verify_vote votes q leader in
+    Some (v, q, match r with None => 0 | Some true => 1 | Some false => 2 end)
+  | Some _ => vf
+  end.
+
 (* a dead leader state (panic inside processLogs) ends the case *)
-Definition step_lop (P : params) (tab : list (N * config)) (ls : lstate) (o : lop) : option lstate * list N :=
+Definition step_lop (P : params) (tab : list (N * config)) (ls : lstate) (vf : vstate) (o : lop)
+  : option lstate * vstate * list N :=
   match o with
   | LDispatch reqs fs =>
     let '(ls', res, tr, _) := dispatch P ls fs reqs in
-    (Some ls', 1 :: enc_fres res ++ enc_trace tr ++ enc_lstate ls')
-  | LMatch id idx => let ls' := peer_match ls id idx in (Some ls', 2 :: enc_lstate ls')
+    (Some ls', vf, 1 :: enc_fres res ++ enc_trace tr ++ enc_lstate ls')
+  | LMatch id idx => let ls' := peer_match ls id idx in (Some ls', vf, 2 :: enc_lstate ls')
   | LCommit =>
     match leader_commit ls with
-    | None => (None, [39])
-    | Some (ls', tr, res) => (Some ls', 3 :: enc_fres res ++ enc_trace tr ++ enc_lstate ls')
+    | None => (None, vf, [39])
+    | Some (ls', tr, res) => (Some ls', vf, 3 :: enc_fres res ++ enc_trace tr ++ enc_lstate ls')
     end
   | LConfig q fid fs =>
     let '(ls', res, tr, _) := append_config P (encode_cfg tab) ls fs q fid in
-    (Some ls', 4 :: enc_fres res ++ enc_trace tr ++ enc_lstate ls')
+    (Some ls', vf, 4 :: enc_fres res ++ enc_trace tr ++ enc_lstate ls')
   | LRestore mi data so fs =>
     let '(ls', code, res, tr, _) := restore_user P ls fs mi data so in
-    (Some ls', 5 :: code :: enc_fres res ++ enc_trace tr ++ enc_lstate ls')
+    (Some ls', vf, 5 :: code :: enc_fres res ++ enc_trace tr ++ enc_lstate ls')
   | LVerify =>
     let '(votes, q, now, peers) := verify_leader P (l_node ls) in
-    (Some ls, 6 :: votes :: q :: b2n now :: N.of_nat (length peers) :: fold_right (fun x l => x :: l) [] peers)
-  | LGate => (Some ls, [7; b2n (config_gate_open ls)])
+    (Some ls, Some (votes, q, if now then 1 else 0),
+     6 :: votes :: q :: b2n now :: N.of_nat (length peers) :: fold_right (fun x l => x :: l) [] peers)
+  | LGate => (Some ls, vf, [7; b2n (config_gate_open ls)])
+  | LVote leader wr =>
+    let vf' := vote_step vf leader in
+    (Some ls, vf',
+     match vf' with
+     | None => [8]
+     | Some (votes, q, res) => 8 :: votes :: q :: (if wr then [res] else [])
+     end)
   end.
 
-Fixpoint run_lops (P : params) (tab : list (N * config)) (fuel : nat) (ls : lstate) (l : list N) : list N :=
+Fixpoint run_lops (P : params) (tab : list (N * config)) (fuel : nat) (ls : lstate) (vf : vstate) (l : list N) : list N :=
   match fuel with
   | O => []
   | S f =>
     match dec_lop l with
     | None => []
     | Some (o, rest) =>
-      let '(ls', out) := step_lop P tab ls o in
+      let '(ls', vf', out) := step_lop P tab ls vf o in
       (N.of_nat (length out) :: out) ++
-      match ls' with Some x => run_lops P tab f x rest | None => [] end
+      match ls' with Some x => run_lops P tab f x vf' rest | None => [] end
     end
   end.
 
@@ -130,7 +155,7 @@ Definition run_leaderseq (inp : list N) : list N :=
         | RecOk s _ =>
           let ls := leader_setup (set_leader (set_state s Leader) self self) in
           let out0 := 1 :: enc_lstate ls in
-          (N.of_nat (length out0) :: out0) ++ run_lops P tab (length r5) ls r5
+          (N.of_nat (length out0) :: out0) ++ run_lops P tab (length r5) ls None r5
         | _ => [1; 0]
         end
       | _ => []
